@@ -42,7 +42,7 @@ TERMINATORS = (ast.Return, ast.Raise, ast.Continue, ast.Break)
 CONSUMERS = {'tuple', 'list', 'set', 'frozenset', 'sorted', 'sum', 'max', 'min', 'dict'}      # consume their whole argument (all/any do not)
 MUTATORS = {'append', 'extend', 'insert', 'pop', 'remove', 'clear', 'sort', 'reverse', 'update', 'add', 'discard', 'setdefault', 'popitem',
             'appendleft', 'extendleft', 'popleft', 'rebuild', 'splice', 'insert_after', 'insert_before', 'replace'}
-PURE_FUNCS = {'len', 'isinstance', 'id', 'type', 'abs', 'min', 'max', 'bool', 'int', 'str', 'repr', 'tuple', 'range'}
+PURE_FUNCS = {'len', 'isinstance', 'id', 'type', 'abs', 'min', 'max', 'bool', 'int', 'str', 'repr', 'tuple', 'range', 'format'}
 
 
 def _u(e: ast.AST) -> str:
@@ -262,6 +262,80 @@ def decision_normalise(st: ast.If) -> Optional[list[ast.stmt]]:
     return _build_rows(dict(table), 0)
 
 
+def _callfree(e: ast.AST) -> bool:
+    return not any(isinstance(x, (ast.Call, ast.Yield, ast.YieldFrom, ast.Await, ast.NamedExpr, ast.Lambda, ast.ListComp, ast.GeneratorExp,
+                                  ast.SetComp, ast.DictComp)) for x in ast.walk(e))
+
+
+def _merge_stmts(a: ast.stmt, b: ast.stmt, test: ast.AST) -> Optional[ast.stmt]:
+    """`if c: S[A] else: S[B]` -> `S[A if c else B]` when the two statements differ in exactly one sub-expression, A and B are
+    call-free, and everything the statement evaluates before that position is call-free too (so evaluating c later changes nothing)"""
+    diffs: list[tuple[ast.AST, str, Optional[int], ast.AST, ast.AST]] = []
+    before_ok = [True]
+
+    def walk(x: ast.AST, y: ast.AST, holder: Optional[ast.AST], field: str, idx: Optional[int]) -> bool:
+        if ast.dump(x) == ast.dump(y):
+            if not diffs and isinstance(x, ast.Call):
+                before_ok[0] = before_ok[0] and False if False else before_ok[0]
+            return True
+        if type(x) is not type(y) or isinstance(x, (ast.expr_context, ast.operator, ast.cmpop, ast.boolop, ast.unaryop)):
+            if holder is None or not isinstance(x, ast.expr) or not isinstance(y, ast.expr):
+                return False
+            diffs.append((holder, field, idx, x, y))
+            return True
+        # same node type: compare children; if more than one child differs, or a non-expression differs, treat this node as the difference
+        sub: list[tuple] = []
+        for fname, xv in ast.iter_fields(x):
+            yv = getattr(y, fname)
+            if isinstance(xv, list) and isinstance(yv, list):
+                if len(xv) != len(yv):
+                    sub.append(None)
+                    continue
+                for k, (p, q) in enumerate(zip(xv, yv)):
+                    if isinstance(p, ast.AST) and isinstance(q, ast.AST):
+                        if ast.dump(p) != ast.dump(q):
+                            sub.append((fname, k, p, q))
+                    elif p != q:
+                        sub.append(None)
+            elif isinstance(xv, ast.AST) and isinstance(yv, ast.AST):
+                if ast.dump(xv) != ast.dump(yv):
+                    sub.append((fname, None, xv, yv))
+            elif xv != yv:
+                sub.append(None)
+        if len(sub) == 1 and sub[0] is not None:
+            fname, k, p, q = sub[0]
+            return walk(p, q, x, fname, k)
+        if holder is None or not isinstance(x, ast.expr):
+            return False
+        diffs.append((holder, field, idx, x, y))
+        return True
+
+    a2, b2 = copy.deepcopy(a), copy.deepcopy(b)
+    if not walk(a2, b2, None, '', None) or len(diffs) != 1:
+        return None
+    holder, field, idx, x, y = diffs[0]
+    if not _callfree(x) or not _callfree(y) or isinstance(x, ast.Starred) or isinstance(holder, (ast.Assign,)) and field == 'targets':
+        return None
+    if isinstance(getattr(x, 'ctx', None), (ast.Store, ast.Del)):
+        return None
+    # everything evaluated before the differing position must be call-free: check all sub-expressions of the statement that are not
+    # inside the differing expression and precede it in source order
+    pos = (getattr(x, 'lineno', 0), getattr(x, 'col_offset', 0))
+    for n_ in ast.walk(a2):
+        if isinstance(n_, ast.Call) and not any(n_ is z for z in ast.walk(x)):
+            npos = (getattr(n_.func, 'lineno', 0), getattr(n_.func, 'col_offset', 0))
+            # a call whose callee expression starts before the differing position but which *contains* that position is the enclosing call:
+            # its callee must be a call-free expression (checked by the loop over inner calls); calls lying entirely before are not allowed
+            if not any(x is z for z in ast.walk(n_)) and npos < pos:
+                return None
+    ife = ast.copy_location(ast.IfExp(test=copy.deepcopy(test), body=x, orelse=y), x)
+    if idx is None:
+        setattr(holder, field, ife)
+    else:
+        getattr(holder, field)[idx] = ife
+    return a2
+
+
 def _first_walrus(e: ast.AST) -> Optional[tuple]:
     """(holder, field, index) of a walrus that is the first thing the expression evaluates"""
     holder: Optional[ast.AST] = None
@@ -422,6 +496,14 @@ class Structurer:
                     out.append(r)
                     self.changed = True
                     return out
+                if st.orelse and len(st.body) == 1 and len(st.orelse) == 1 and type(st.body[0]) is type(st.orelse[0]) \
+                        and isinstance(st.body[0], (ast.Expr, ast.Return, ast.Assign)):
+                    merged = _merge_stmts(st.body[0], st.orelse[0], st.test)
+                    if merged is not None:
+                        out.append(merged)
+                        self.changed = True
+                        i += 1
+                        continue
                 if st.orelse and len(st.body) == 1 and len(st.orelse) == 1 and isinstance(st.body[0], ast.Assign) and isinstance(st.orelse[0], ast.Assign) \
                         and len(st.body[0].targets) == 1 and len(st.orelse[0].targets) == 1 and _u(st.body[0].targets[0]) == _u(st.orelse[0].targets[0]) \
                         and isinstance(st.body[0].targets[0], ast.Name):
@@ -575,6 +657,38 @@ def _boolish(e: ast.AST) -> bool:
     return False
 
 
+def _strlit(e: ast.AST) -> bool:
+    if isinstance(e, ast.Constant) and isinstance(e.value, str):
+        return True
+    return isinstance(e, ast.IfExp) and _strlit(e.body) and _strlit(e.orelse)
+
+
+def _strish(e: ast.AST) -> bool:
+    """certainly a str: literal, str()/repr()/format() call, or a choice / concatenation of such"""
+    if _strlit(e):
+        return True
+    if isinstance(e, ast.Call) and isinstance(e.func, ast.Name) and e.func.id in ('str', 'repr', 'format', 'ascii'):
+        return True
+    if isinstance(e, ast.IfExp):
+        return _strish(e.body) and _strish(e.orelse)
+    if isinstance(e, ast.BinOp) and isinstance(e.op, ast.Add):
+        return _strish(e.left) and _strish(e.right)
+    return False
+
+
+def _plus_chain(e: ast.AST) -> list[ast.AST]:
+    if isinstance(e, ast.BinOp) and isinstance(e.op, ast.Add):
+        return _plus_chain(e.left) + _plus_chain(e.right)
+    return [e]
+
+
+def _join_plus(parts: list[ast.AST]) -> ast.AST:
+    out = parts[0]
+    for p_ in parts[1:]:
+        out = ast.BinOp(left=out, op=ast.Add(), right=p_)
+    return out
+
+
 class _Exprs(ast.NodeTransformer):
     """conditional expressions and formatted strings"""
 
@@ -582,8 +696,33 @@ class _Exprs(ast.NodeTransformer):
         self.generic_visit(n)
         return _flatten_bool(n)
 
+    def visit_Call(self, n: ast.Call) -> ast.AST:
+        self.generic_visit(n)
+        # str(<string literal or a choice of string literals>) is that string
+        if isinstance(n.func, ast.Name) and n.func.id == 'str' and len(n.args) == 1 and not n.keywords:
+            a = n.args[0]
+            if _strlit(a):
+                return a
+        return n
+
     def visit_IfExp(self, n: ast.IfExp) -> ast.AST:
         self.generic_visit(n)
+        # common prefix / suffix of two concatenations: `(P + x + S) if c else (P + y + S)` -> `P + (x if c else y) + S`
+        # (P and S only call pure builtins, so evaluating them before c changes nothing)
+        fa, fb = _plus_chain(n.body), _plus_chain(n.orelse)
+        if len(fa) >= 2 and len(fb) >= 2:
+            pre = 0
+            while pre < min(len(fa), len(fb)) - 1 and ast.dump(fa[pre]) == ast.dump(fb[pre]) and _pure(fa[pre]):
+                pre += 1
+            suf = 0
+            while suf < min(len(fa), len(fb)) - pre - 1 and ast.dump(fa[-1 - suf]) == ast.dump(fb[-1 - suf]) and _pure(fa[-1 - suf]):
+                suf += 1
+            if pre or suf:
+                ma, mb = fa[pre:len(fa) - suf], fb[pre:len(fb) - suf]
+                if ma and mb and all(_strish(x) for x in fa + fb):
+                    mid = ast.copy_location(ast.IfExp(test=n.test, body=_join_plus(ma), orelse=_join_plus(mb)), n)
+                    mid = self.visit_IfExp(mid) if (len(ma) >= 2 and len(mb) >= 2) else mid
+                    return ast.copy_location(_join_plus(fa[:pre] + [mid] + (fa[len(fa) - suf:] if suf else [])), n)
         # `E if E else F` -> `E or F` for an expression E without calls (evaluating it once or twice gives the same object)
         if ast.dump(n.test) == ast.dump(n.body) and not any(isinstance(x, (ast.Call, ast.NamedExpr, ast.Yield, ast.YieldFrom, ast.Await))
                                                              for x in ast.walk(n.test)):
@@ -616,6 +755,8 @@ class _Exprs(ast.NodeTransformer):
                     spec = v.format_spec
                     if isinstance(spec, ast.JoinedStr) and all(isinstance(x, ast.Constant) for x in spec.values):
                         spec_c = ast.Constant(value=''.join(str(x.value) for x in spec.values))
+                    elif isinstance(spec, ast.Constant) and isinstance(spec.value, str):
+                        spec_c = spec
                     else:
                         return n
                     inner = v.value if v.conversion == -1 else ast.Call(func=ast.Name(id={115: 'str', 114: 'repr', 97: 'ascii'}[v.conversion], ctx=ast.Load()),
